@@ -334,7 +334,8 @@ class PD(Operator):
 
     def _apply(self, sm):
         xp = common.get_array_module()
-        eq = xp.array([0, 0, 1]) * xp.atleast_1d(self.pd)[..., np.newaxis, np.newaxis]
+        eq = xp.array([0, 0, 1], dtype=complex)
+        eq = eq * xp.atleast_1d(self.pd)[..., np.newaxis, np.newaxis]
         sm.arrays.set("equilibrium", eq, resize=True)
         if self.reset:
             sm.arrays.update("states", sm.equilibrium)
